@@ -317,6 +317,7 @@ struct RunCfg
   int iuf = 0, iif = 0;
   float iuf_shift = 0.F, iif_shift = 0.F;
   int max_seg = -1;
+  int save_interval = 1;
   bool prior_active() const { return prior == 1 || prior == 2; }
   int map_code() const { return prior_active() ? map : 0; }
 };
@@ -358,7 +359,7 @@ configure_recon(ReconT& r, const shared_ptr<ObjT>& obj, const RunCfg& c, Objects
   r.set_start_subset_num(c.start_subset);
   r.set_num_subiterations(last);
   r.set_start_subiteration_num(start);
-  r.set_save_interval(1);
+  r.set_save_interval(std::min(c.save_interval, last));
   r.set_enforce_initial_positivity(c.enforce);
   if (c.prior_active())
     r.set_MAP_model(c.map == 1 ? "additive" : "multiplicative");
@@ -456,6 +457,13 @@ all_finite(const Vec& v)
   return true;
 }
 
+static bool
+file_exists(const std::string& fname)
+{
+  struct stat st;
+  return ::stat(fname.c_str(), &st) == 0;
+}
+
 static Vec
 read_image(const std::string& fname)
 {
@@ -523,7 +531,7 @@ explicit_quantities(const Geo& g, const Data& d, const RunCfg& c, const Vec& lam
             e.gps[el.first] += static_cast<double>(el.second) * ratio;
           const double mean = d.eff[b] * ybar;
           e.ll += d.y[b] * std::log(mean) - mean;
-          e.ll_mag += std::fabs(d.y[b] * std::log(mean)) + mean;
+          e.ll_mag += d.y[b] * (1 + std::fabs(std::log(mean))) + mean; // |d(y log m)| <= y |dm/m|: the y itself counts
         }
       else
         {
@@ -559,7 +567,8 @@ legal_subset_numbers(const Geo& g, const Data& d)
 
 // ------------------------------------------------------------------------------------------------ real stream, one case
 static void
-run_real_case(const std::string& name, const Geo& g, const Data& d, RunCfg c, vh::Rng& rng, bool do_restart)
+run_real_case(const std::string& name, const Geo& g, const Data& d, RunCfg c, vh::Rng& rng, bool do_restart,
+              const std::vector<int>& legal)
 {
   const float eps = std::ldexp(1.F, -24);
   // start image: positive, sometimes with zeros / negatives (set_up's positivity step)
@@ -601,6 +610,20 @@ run_real_case(const std::string& name, const Geo& g, const Data& d, RunCfg c, vh
       g_cov["real_setup_refused"]++;
       return;
     }
+  { // ORACLE: the total sensitivity the objective function reports is the sum over all bins of P_bj * efficiency
+    const Vec total = to_vec(probe->get_sensitivity());
+    RunCfg call = c;
+    call.nsub = 1;
+    call.use_subset_sens = true;
+    Explicit ex = explicit_quantities(g, d, call, start, 0);
+    const double gam = 4. * (g.max_row + g.max_col + 16) * eps;
+    bool ok = true;
+    for (int j = 0; j < g.nvox && ok; ++j)
+      ok = std::fabs(total[j] - ex.sens[j]) <= gam * std::fabs(ex.sens[j]) + 1e-30;
+    ++g_checks;
+    if (!ok)
+      oracle_fail("total sensitivity differs from the explicit matrix, case=" + name);
+  }
   {
     Vec after_setup = to_vec(*image);
     std::fprintf(g_ops, "setup V ");
@@ -786,20 +809,24 @@ run_real_case(const std::string& name, const Geo& g, const Data& d, RunCfg c, vh
     return;
 
   // ---- B: one uninterrupted reconstruct() saving every iterate
+  const int si = c.save_interval;
+  auto is_saved = [&](int k) { return k % si == 0 || k == c.N; }; // documented: intervals of ABSOLUTE sub-iteration numbers
   const std::string prefB = g_outdir + "/" + name + "_u";
-  std::vector<Vec> saved;
+  std::vector<Vec> saved(c.N + 1);
   try
     {
-      Objects B = build(g, d, c, 1, c.N, prefB);
+      RunCfg cb = c;
+      cb.save_interval = 1;
+      Objects B = build(g, d, cb, 1, c.N, prefB);
       shared_ptr<TargetT> imb(g.tmpl->clone());
       from_vec(*imb, start);
       if (B.recon->set_up(imb) != Succeeded::yes)
         throw std::runtime_error("set_up B");
       B.recon->reconstruct(imb);
       for (int k = 1; k <= c.N; ++k)
-        saved.push_back(read_image(prefB + "_" + std::to_string(k) + ".hv"));
+        saved[k] = read_image(prefB + "_" + std::to_string(k) + ".hv");
       ++g_checks;
-      if (!bitwise_equal(saved.back(), to_vec(*imb)))
+      if (!bitwise_equal(saved[c.N], to_vec(*imb)))
         oracle_fail("saved final image differs from the image in memory, case=" + name);
     }
   catch (std::exception& e)
@@ -811,15 +838,91 @@ run_real_case(const std::string& name, const Geo& g, const Data& d, RunCfg c, vh
   for (int k = 1; k <= c.N; ++k)
     {
       ++g_checks;
-      if (!bitwise_equal(saved[k - 1], stepwise[k - 1]))
+      if (!bitwise_equal(saved[k], stepwise[k - 1]))
         {
           oracle_fail("stepwise run and uninterrupted run differ after sub-iteration " + std::to_string(k) + ", case=" + name);
           break;
         }
     }
   g_cov["restart_uninterrupted_runs"]++;
+  g_cov["restart_save_interval_" + std::to_string(si)]++;
+  if (si > 1)
+    { // the same run with a save interval: exactly the iterates k % interval == 0 and the last one are written
+      const std::string prefS = g_outdir + "/" + name + "_s";
+      try
+        {
+          Objects B2 = build(g, d, c, 1, c.N, prefS);
+          shared_ptr<TargetT> imb(g.tmpl->clone());
+          from_vec(*imb, start);
+          if (B2.recon->set_up(imb) != Succeeded::yes)
+            throw std::runtime_error("set_up B2");
+          B2.recon->reconstruct(imb);
+          for (int k = 1; k <= c.N; ++k)
+            {
+              const std::string f = prefS + "_" + std::to_string(k) + ".hv";
+              ++g_checks;
+              if (is_saved(k) != file_exists(f))
+                oracle_fail("save_interval=" + std::to_string(si) + ": iterate " + std::to_string(k)
+                            + (is_saved(k) ? " not saved" : " saved") + ", case=" + name);
+              else if (is_saved(k) && !bitwise_equal(read_image(f), saved[k]))
+                oracle_fail("save_interval=" + std::to_string(si) + ": saved iterate " + std::to_string(k) + " differs, case=" + name);
+            }
+        }
+      catch (std::exception& e)
+        {
+          ++g_checks;
+          oracle_fail("uninterrupted run with save interval failed, case=" + name + ": " + e.what());
+        }
+    }
 
-  // ---- C: restart at every k, enforce_initial_positivity as configured and the other way
+  // ---- D: history: the same reconstruction + objective function objects, first used with another number of subsets,
+  //         then re-configured through the setters and set_up again, give the images of fresh objects
+  if (legal.size() > 1)
+    {
+      RunCfg other = c;
+      do
+        other.nsub = legal[rng.range(0, static_cast<int>(legal.size()) - 1)];
+      while (other.nsub == c.nsub);
+      other.start_subset = rng.range(0, other.nsub - 1);
+      other.N = rng.range(1, 3);
+      other.save_interval = 1;
+      const std::string prefD = g_outdir + "/" + name + "_h";
+      try
+        {
+          Objects D = build(g, d, other, 1, other.N, "");
+          shared_ptr<TargetT> im0(g.tmpl->clone());
+          from_vec(*im0, start);
+          if (D.recon->set_up(im0) != Succeeded::yes)
+            throw std::runtime_error("set_up D (first use)");
+          D.recon->reconstruct(im0);
+          // re-configure the same objects
+          RunCfg cb = c;
+          cb.save_interval = 1;
+          D.recon->set_disable_output(false);
+          configure_recon(*D.recon, D.obj, cb, D, 1, c.N, prefD);
+          shared_ptr<TargetT> im1(g.tmpl->clone());
+          from_vec(*im1, start);
+          if (D.recon->set_up(im1) != Succeeded::yes)
+            throw std::runtime_error("set_up D (second use)");
+          D.recon->reconstruct(im1);
+          int first_diff = -1;
+          for (int k = 1; k <= c.N && first_diff < 0; ++k)
+            if (!bitwise_equal(read_image(prefD + "_" + std::to_string(k) + ".hv"), saved[k]))
+              first_diff = k;
+          ++g_checks;
+          g_cov["history_reuse_runs"]++;
+          if (first_diff > 0)
+            oracle_fail("objects re-used after a run with " + std::to_string(other.nsub) + " subsets differ from fresh objects at iterate "
+                        + std::to_string(first_diff) + ", case=" + name + " nsub=" + std::to_string(c.nsub));
+        }
+      catch (std::exception& e)
+        {
+          ++g_checks;
+          oracle_fail("re-used objects failed, case=" + name + ": " + e.what());
+        }
+    }
+
+  // ---- C: restart at every k (with the configured save interval), enforce_initial_positivity on and off
   for (int enf = 0; enf < 2; ++enf)
     for (int k = 1; k < c.N; ++k)
       {
@@ -838,11 +941,20 @@ run_real_case(const std::string& name, const Geo& g, const Data& d, RunCfg c, vh
             bool same = true;
             int first_diff = -1;
             for (int m = k + 1; m <= c.N && same; ++m)
-              if (!bitwise_equal(read_image(prefC + "_" + std::to_string(m) + ".hv"), saved[m - 1]))
-                {
-                  same = false;
-                  first_diff = m;
-                }
+              {
+                const std::string f = prefC + "_" + std::to_string(m) + ".hv";
+                if (!is_saved(m))
+                  {
+                    if (file_exists(f))
+                      throw std::runtime_error("resumed run saved iterate " + std::to_string(m) + " which the uninterrupted run does not save");
+                    continue;
+                  }
+                if (!bitwise_equal(read_image(f), saved[m]))
+                  {
+                    same = false;
+                    first_diff = m;
+                  }
+              }
             ++g_checks;
             g_cov["restart_points"]++;
             const bool has_nonpos = *std::min_element(loaded.begin(), loaded.end()) <= 0;
@@ -862,9 +974,9 @@ run_real_case(const std::string& name, const Geo& g, const Data& d, RunCfg c, vh
                                      "KNOWN-CANDIDATE restart:enforce-initial-positivity-lifts-exact-zeros resuming at sub-iteration k+1 "
                                      "from the image saved after k does not reproduce the uninterrupted run when that image has "
                                      "exact zeros and enforce_initial_positivity is left at its default (true): set_up lifts the "
-                                     "zeros to 1e-6*min_positive while the uninterrupted run keeps them 0 (first seen: case=%s k=%d "
-                                     "first differing iterate=%d nsub=%d)\n",
-                                     name.c_str(), k, first_diff, c.nsub);
+                                     "zeros to 1e-6*min_positive while the uninterrupted run keeps them 0\n");
+                        std::fprintf(g_orc, "# first seen: case=%s k=%d first differing iterate=%d nsub=%d\n", name.c_str(), k,
+                                     first_diff, c.nsub);
                       }
                   }
                 else
@@ -920,7 +1032,7 @@ synth_value(vh::Rng& rng, int style)
     case 1:
       return 0.F;
     case 2:
-      return static_cast<float>(std::ldexp(1 + rng.unit(), -rng.range(18, 40)));
+      return static_cast<float>(std::ldexp(1 + rng.unit(), -rng.range(8, 40)));
     case 3:
       return -static_cast<float>(0.1 + 3 * rng.unit());
     default:
@@ -1025,6 +1137,61 @@ run_synth_case(const Geo& g, const Data& d, vh::Rng& rng, int steps, const std::
     }
 }
 
+// ------------------------------------------------------------------------------------------------ set_up-only stream
+// what OSMAPOSLReconstruction::set_up does to start images of every kind (all positive, zeros, negatives, nothing positive)
+static void
+run_setup_case(const Geo& g, const Data& d, vh::Rng& rng)
+{
+  RunCfg c;
+  c.enforce = rng.range(0, 4) != 0;
+  const int kind = rng.range(0, 4);
+  Vec start(g.nvox);
+  for (int j = 0; j < g.nvox; ++j)
+    switch (kind)
+      {
+      case 0:
+        start[j] = synth_value(rng, 0);
+        break;
+      case 1:
+        start[j] = synth_value(rng, rng.range(0, 1));
+        break;
+      case 2:
+        start[j] = synth_value(rng, rng.range(0, 4));
+        break;
+      case 3:
+        start[j] = rng.coin() ? 0.F : synth_value(rng, 3);
+        break;
+      default:
+        start[j] = 0.F;
+      }
+  Objects o = build(g, d, c, 1, 1, "");
+  shared_ptr<TargetT> image(g.tmpl->clone());
+  from_vec(*image, start);
+  put_cfg("setup", g.nvox, c);
+  try
+    {
+      if (o.recon->set_up(image) != Succeeded::yes)
+        return;
+    }
+  catch (std::exception&)
+    {
+      return;
+    }
+  std::fprintf(g_ops, "setup V ");
+  put_vec(g_ops, start);
+  std::fprintf(g_ops, "\n");
+  const Vec after = to_vec(*image);
+  put_vec(g_out, after);
+  std::fprintf(g_out, "\n");
+  g_cov[std::string("setup_only_kind") + std::to_string(kind)]++;
+  ++g_checks;
+  bool ok = true;
+  for (int j = 0; j < g.nvox; ++j)
+    ok = ok && (c.enforce ? (after[j] > 0 && (start[j] <= 0 || after[j] == start[j])) : after[j] == start[j]);
+  if (!ok)
+    oracle_fail("setup-positivity (setup-only stream) kind=" + std::to_string(kind));
+}
+
 // ------------------------------------------------------------------------------------------------ main
 int
 main(int argc, char** argv)
@@ -1042,8 +1209,13 @@ main(int argc, char** argv)
   ::mkdir(g_outdir.c_str(), 0777);
   g_outdir += "/s" + std::to_string(seed) + (thorough ? "t" : "q");
   ::mkdir(g_outdir.c_str(), 0777);
+  { // stale files of an earlier run with the same seed must not be mistaken for saved iterates
+    const std::string cmd = "rm -f " + g_outdir + "/*.hv " + g_outdir + "/*.v " + g_outdir + "/*.ahv";
+    if (std::system(cmd.c_str()) != 0)
+      return 3;
+  }
 
-  const int ngeo = thorough ? 10 : 3;
+  const int ngeo = thorough ? 36 : 8;
   int case_no = 0;
   for (int gi = 0; gi < ngeo; ++gi)
     {
@@ -1054,7 +1226,7 @@ main(int argc, char** argv)
       Geo g = make_geo(N, R, nxy, symflags);
       const int views = N / 2;
       g_cov["geometries"]++;
-      for (int di = 0; di < (thorough ? 4 : 2); ++di)
+      for (int di = 0; di < (thorough ? 4 : 3); ++di)
         {
           const bool has_add = (di & 1) != 0 ? true : rng.range(0, 3) == 0;
           const bool has_norm = rng.coin();
@@ -1127,13 +1299,17 @@ main(int argc, char** argv)
                       if (rng.range(0, 5) == 0)
                         c.max_seg = rng.range(0, R - 1);
                     }
+                  if (c.N >= 3 && rng.range(0, 3) == 0)
+                    c.save_interval = rng.range(2, std::min(c.N, 4));
                   const bool do_restart = thorough || v == 0 || rng.range(0, 1) == 0;
-                  run_real_case("c" + std::to_string(case_no++), g, d, c, rng, do_restart);
+                  run_real_case("c" + std::to_string(case_no++), g, d, c, rng, do_restart, legal);
                 }
             }
           const int nsynth = thorough ? 30 : 10;
           for (int s = 0; s < nsynth; ++s)
             run_synth_case(g, d, rng, rng.range(2, 4), legal);
+          for (int s = 0; s < (thorough ? 16 : 8); ++s)
+            run_setup_case(g, d, rng);
         }
     }
 
